@@ -116,7 +116,7 @@ Section ConnCheck.
     let '((tr, complete, progs, w, fin), k) := c in
     match explain_conn c with
     | Some sched =>
-        match crun_opt declared 0 no_split tr sched progs with
+        match crun_fix_opt declared 0 no_split tr sched progs with
         | Some cs =>
             let s := c_base cs in
             list_eqb (epkt_eqb deqb) (st_wire s) w
